@@ -513,6 +513,21 @@ pub fn spaces(tier: Tier) -> Vec<Space> {
             }
             Err(p) => acc.violate(format!("C02/get_pushdata_bytes/kind=panic@{}", panic_site(&p)), case.idx, case.json(input), p),
         }
+        // the twins of the same decision: Script::get_pushdata_prefix_bytes and VarInt::get_pushdata_opcode (used by the asm reader)
+        acc.transitions += 2;
+        let input = json!({"fn": "Script::get_pushdata_prefix_bytes / VarInt::get_pushdata_opcode", "n": n});
+        match guard(|| (Script::get_pushdata_prefix_bytes(n as usize).ok(), bsv::VarInt::get_pushdata_opcode(n).map(|o| o as u8))) {
+            Ok((prefix, opcode)) => {
+                if prefix.as_deref() != Some(&want[..]) {
+                    acc.violate(format!("C02/get_pushdata_prefix_bytes/kind=wrong-prefix/n={}", n), case.idx, case.json(input.clone()), format!("library={:?} minimal={}", prefix.map(|p| hx(&p)), hx(&want)));
+                }
+                let want_op = if want.len() == 1 { None } else { Some(want[0]) };
+                if opcode != want_op {
+                    acc.violate(format!("C02/get_pushdata_opcode/kind=wrong-opcode/n={}", n), case.idx, case.json(input), format!("library={:?} minimal form uses {:?}", opcode, want_op));
+                }
+            }
+            Err(p) => acc.violate(format!("C02/push-helper-twins/kind=panic@{}", panic_site(&p)), case.idx, case.json(input), p),
+        }
     }));
     v.push(Space::new("encode-pushdata", ENCODE_LEN.len() as u64 * 2, |case, acc| {
         let n = ENCODE_LEN[(case.idx / 2) as usize];
